@@ -113,6 +113,30 @@ Definition reset_event (res acc : list bytes) : option (option (list bytes) * op
 Definition reset_all (c : config) (o : ownership) : ownership * option (option (list bytes) * option (list bytes)) :=
   (o, reset_event (olist (o_res o)) (olist (o_acc o))).
 
+(* What the connection and the OnReconnect / OnDisconnect callbacks see, in order.
+   handleReconnect = ResetAll, then the OnReconnect callback; handleDisconnect = the OnDisconnect
+   callback, nothing is published.  On a service that is not started ([None]: before Serve, after
+   Shutdown) ResetAll logs "Failed to reset: service not started" and publishes nothing; the
+   callback is called all the same. *)
+Inductive svc_event :=
+  | EReset (p : option (list bytes) * option (list bytes))   (* system.reset published *)
+  | ERefused                                                 (* ResetAll refused: service not started *)
+  | EOnReconnect
+  | EOnDisconnect.
+Definition reset_all_events (c : config) (o : option ownership) : list svc_event :=
+  match o with
+  | Some ow => match snd (reset_all c ow) with Some p => [EReset p] | None => [] end
+  | None => [ERefused]
+  end.
+Definition handle_reconnect (c : config) (o : option ownership) : list svc_event :=
+  reset_all_events c o ++ [EOnReconnect].
+Definition handle_disconnect : list svc_event := [EOnDisconnect].
+(* a script of operations on the service: 0 = ResetAll, 1 = reconnect, 2 = disconnect *)
+Definition op_events (c : config) (o : option ownership) (op : N) : list svc_event :=
+  if op =? 0 then reset_all_events c o else if op =? 1 then handle_reconnect c o else handle_disconnect.
+Definition script_events (c : config) (o : option ownership) (script : list N) : list svc_event :=
+  flat_map (op_events c o) script.
+
 (* owned patterns while serving: resolved by serve() before subscribing *)
 Definition served_ownership (c : config) : ownership := set_default_ownership c (initial_ownership c).
 
